@@ -26,6 +26,7 @@ type floatCtx struct {
 	seenPt  map[string]bool
 	seenR   map[string]bool
 	relerr  bool
+	inputs  []fpoint // representable numbers coming from outside (parameters, heap loads, call results)
 	intOf   map[string]string // v-term -> integer term I with: |I| <= 2^53 (and the same for its operands) ==> v == to_real(I)
 	intCond map[string]string
 }
@@ -100,9 +101,8 @@ func (f *floatCtx) round(e *Exec, x string) string {
 	e.axiom(fmt.Sprintf("(=> (and (is_int %s) (<= (- %s) %s) (<= %s %s)) (= %s %s))", x, two53, x, x, two53, r, x))
 	// coarse relative error (valid also for subnormals and ties): rnd(x) lies between x/2 and 2x
 	e.axiom(fmt.Sprintf("(and (=> (>= %s 0.0) (and (<= %s (* 2.0 %s)) (>= %s (/ %s 2.0)))) (=> (<= %s 0.0) (and (>= %s (* 2.0 %s)) (<= %s (/ %s 2.0)))))", x, r, x, r, x, x, r, x, r, x))
-	if f.relerr {
-		e.axiom(fmt.Sprintf("(<= (absr (- %s %s)) (+ (* (/ 1.0 %s) (absr %s)) (/ 1.0 (^ 2.0 1075))))", r, x, two53, x))
-	}
+	// relative error of round-to-nearest (linear in x): |rnd(x) - x| <= 2^-53 |x| + 2^-1075
+	e.axiom(fmt.Sprintf("(and (<= (- %s %s) (+ (* EPS53 (absr %s)) TINY)) (<= (- %s %s) (+ (* EPS53 (absr %s)) TINY)))", r, x, x, x, r, x))
 	f.rounded = append(f.rounded, x)
 	return r
 }
@@ -439,4 +439,23 @@ func (e *Exec) intLemma(op string, a, b, res Value) {
 	e.axiom(fmt.Sprintf("(=> %s (and (= %s 0) (= %s (to_real %s))))", cond, fk(res), fv(res), i))
 	e.fl.intOf[fv(res)] = i
 	e.fl.intCond[fv(res)] = cond
+}
+
+// addInput registers an input float and states the separation of distinct doubles:
+// p != q ==> |p - q| >= 2^-53 * |p|  (also true in the subnormal range).
+func (f *floatCtx) addInput(e *Exec, k, v string) {
+	if e.discovery || e.quiet > 0 {
+		return
+	}
+	for _, q := range f.inputs {
+		if q.v == v {
+			return
+		}
+	}
+	if len(f.inputs) < 12 {
+		for _, q := range f.inputs {
+			e.axiom(fmt.Sprintf("(=> (and (= %s 0) (= %s 0)) (or (= %s %s) (and (>= (absr (- %s %s)) (* EPS53 (absr %s))) (>= (absr (- %s %s)) (* EPS53 (absr %s))))))", k, q.k, v, q.v, v, q.v, v, v, q.v, q.v))
+		}
+	}
+	f.inputs = append(f.inputs, fpoint{k, v})
 }
